@@ -1020,3 +1020,62 @@ fn g_fetch_4_fetch_with_real_execute() {
     vcover!();
     std::mem::forget(w);
 }
+
+//@ob id=G-MCA-3 kind=C props=C01,C03,C04,C11 timeout=1800 fn=IngredientImpl::maybe_changed_after,IngredientImpl::maybe_changed_after_cold,MemoHeader::maybe_changed_after_hot,MemoHeader::shallow_verify_memo,MemoHeader::update_shallow,VerifyResult::unchanged_for_memo flags=stubs,noreplay
+//@ pre: as G-MCA-2, and `verify_memo` is the real code too (shallow + deep verification; the stored memo has no edges and is fully tracked or untracked, symbolically); as G-MCA-1 but the memo lives in a **real** one-slot memo table (`get_memo_from_table_for`, `memo_slot`, `MemoSlot::get_erased`, `ErasedMemo::downcast` are the real code); any monotone revision vector; the key has no memo, or a final derived memo with any value presence (Some / evicted), any durability, verified at any revision <= current, changed_at <= verified_at; `verify_memo` (stub, contract above) gives any verdict; `execute` (stub) returns a memo verified now with any changed_at <= current; any query revision `rev` <= current
+//@ post: Unchanged <=> the memo that is valid at the end (the stored one if it verified, else the re-executed one) has changed_at <= rev - after a re-execution it is the **new** memo's changed_at that is compared with the caller's revision [C01, C04]; nothing else yields Changed [C03]; no memo => Changed
+//@ post: an Unchanged answer carries the memo's accumulated-inputs flag **as it is after verification** [C11]
+//@ post: `execute` runs at most once and gets the stored memo as old memo; a memo that is neither verified nor re-executed (the code does this for an evicted value) is reported Changed; every granted claim is released exactly once
+#[cfg(kani)]
+#[kani::proof]
+#[kani::unwind(4)]
+#[kani::stub(crate::sync::max_parallelism, crate::verif_support::one_core)]
+#[kani::stub(crate::function::sync::SyncTable::try_claim, crate::function::sync::verif::stub_try_claim)]
+#[kani::stub(crate::function::sync::ClaimGuard::drop_impl, crate::function::sync::ClaimGuard::verif_release)]
+#[kani::stub(crate::function::IngredientImpl::execute, stub_execute_real)]
+fn g_mca_3_maybe_changed_after_real_verification() {
+    let w = world();
+    install_real_table();
+    let cur = w.cur;
+    let stored: bool = vk::any();
+    let has_value: bool = vk::any();
+    let (va, ca) = (vk::any_revision(), vk::any_revision());
+    vk::assume(ca <= va && va <= cur);
+    let d = vk::any_durability();
+    let untracked: bool = vk::any();
+    let old = memo_kind(if has_value { Some(11) } else { None }, va, d, ca, untracked);
+    let nca = vk::any_revision();
+    vk::assume(nca <= cur);
+    let new = memo(Some(12), cur, d, nca);
+    // SAFETY: single-threaded harness
+    unsafe { EXEC_RESULT = addr(new) };
+    if stored {
+        store_real(old);
+    }
+    let rev = vk::any_revision();
+    vk::assume(rev <= cur);
+    let res = w.ing.maybe_changed_after(&w.db, w.id, rev);
+    // SAFETY: single-threaded harness
+    let (calls, old_seen, claims, releases) = unsafe { (EXEC_CALLS, EXEC_OLD, crate::function::sync::verif::CLAIMS, crate::function::sync::verif::RELEASES) };
+    assert!(calls <= 1);
+    assert!(claims == releases);
+    if !stored {
+        assert!(!res.is_unchanged() && calls == 0);
+    } else if calls == 1 {
+        assert!(old_seen == addr(old));
+        assert!(res.is_unchanged() == (nca <= rev));
+    } else if old.header.verified_at.load() == cur {
+        // the stored memo is valid in the current revision (it was, or verification just said so)
+        assert!(res.is_unchanged() == (ca <= rev));
+        if let Some(acc) = acc_of(&res) {
+            assert!(acc == old.header.revisions.accumulated_inputs.load().is_any());
+        }
+    } else {
+        // neither verified nor re-executed: the answer must be Changed (what the code does for an evicted value)
+        assert!(!res.is_unchanged());
+    }
+    vcover!(calls == 1, "re-execution path reachable");
+    vcover!(stored && calls == 0 && res.is_unchanged(), "verified-unchanged path reachable");
+    vcover!();
+    std::mem::forget(w);
+}
